@@ -1,7 +1,8 @@
-(* C04 -- Parsing untrusted bytes never panics, aborts or hangs.   (placeholder until ./check C04 is green)
+(* C04 -- Parsing untrusted bytes never panics, aborts or hangs.
    Statements only; the proofs are in Proofs/Safe*Proofs.v.  [bytes] is [list byte]: "forall bs" is every byte string. *)
 From LV Require Import Base.Bytes Model.Utf Model.OneByte Model.RangeMap Model.CMap Model.CMapParser Gen.Tables
-     Model.Safe Model.SafeFilt Model.SafeText Proofs.SafeFiltProofs Proofs.SafeTextProofs.
+     Model.Obj Model.Parser Model.Safe Model.SafeFilt Model.SafeText Model.SafeContent Model.SafeXref
+     Proofs.SafeFiltProofs Proofs.SafeTextProofs Proofs.SafeContentProofs Proofs.SafeXrefProofs.
 Local Open Scope N_scope.
 
 (* ---------------- Stream::decode_ascii85 ---------------- *)
@@ -80,6 +81,73 @@ Theorem C04_example_cmap :
   match cmap_parse example_cmap with ParseOk cm => outcome (scmap_text cm [x41; x42; x7a]) = SOk 3 | _ => False end.
 Proof. vm_compute. reflexivity. Qed.
 
+(* ---------------- Content::decode and the object parser (ObjectStream members, operands) ---------------- *)
+(* for every byte string the grammar model of Content::decode ends in operations or an error, never in a panic *)
+Theorem C04_content_no_panic : forall bs, decode_content bs <> DecPanic.
+Proof. exact decode_content_no_panic. Qed.
+(* parser::direct_object, at every fuel and for every byte string *)
+Theorem C04_direct_object_no_panic : forall fuel bs, direct_object fuel bs <> PPanic.
+Proof. exact direct_object_no_panic. Qed.
+(* inline image W / H / BPC: checked arithmetic, and the data taken is never longer than what is left of the stream *)
+Theorem C04_inline_image_safe : forall nc w h bpc rest,
+  no_panic (sinline_data nc w h bpc rest)
+  /\ max_alloc (sinline_data nc w h bpc rest) <= N.of_nat (length rest)
+  /\ steps (sinline_data nc w h bpc rest) <= N.of_nat (length rest).
+Proof. exact sinline_data_safe. Qed.
+Theorem C04_inline_image_pinned_refuted :
+  outcome (sinline_len_pinned 3 9223372036854775807 1 8) = SPanic ROverflow
+  /\ outcome (sinline_len_pinned 1 (-1) 1 8) = SPanic ROverflow.
+Proof. exact sinline_len_pinned_refuted. Qed.
+(* recursion depth (repair 61b571d): a value parsed at depth d parses its elements at depth d - 1 and only when d > 0;
+   at depth 0 no recursive call is made, whatever the input.  So the recursion is at most MAX_BRACKET + 1 containers
+   deep, plus MAX_BRACKET + 1 for the parentheses of a literal string: PARSER_DEPTH_BOUND. *)
+Theorem C04_parser_depth_decreases : forall f d s,
+  direct_objects_at (S f) d s = object_alts_c (direct_objects_at f (pred d)) (depth_ok d) true f s.
+Proof. exact depth_decreases. Qed.
+Theorem C04_parser_depth0_no_recursion : forall elem1 elem2 ar n s,
+  object_alts_c elem1 false ar n s = object_alts_c elem2 false ar n s.
+Proof. exact depth0_no_recursion. Qed.
+
+(* ---------------- xref::decode_xref_stream, after decompression ---------------- *)
+(* for every W, Index and content: no panic, the row loop stops (fuel content.len() + 1 per section suffices whatever
+   count the file gives), the largest request is the content length + 1 or the two integer arrays, and no more
+   entries are inserted than the content has bytes *)
+Theorem C04_xref_stream_safe : forall index ws content,
+  Forall in_i64 ws -> SafeXref.blen content < ISIZE_MAX ->
+  no_panic (sxref_stream index ws content)
+  /\ terminates (sxref_stream index ws content)
+  /\ max_alloc (sxref_stream index ws content)
+     <= N.max (SafeXref.blen content + 1) (8 * N.max (N.of_nat (length index)) (N.of_nat (length ws)))
+  /\ forall n, outcome (sxref_stream index ws content) = SOk n -> n <= SafeXref.blen content.
+Proof. exact sxref_stream_safe. Qed.
+Theorem C04_example_xref_stream :
+  Forall in_i64 [1; 1; 1]%Z /\ SafeXref.blen [x01; x00; x00; x01; x00; x00; x01; x00; x00] < ISIZE_MAX
+  /\ outcome (sxref_stream [9223372036854775806; 3]%Z [1; 1; 1]%Z [x01; x00; x00; x01; x00; x00; x01; x00; x00]) = SOk 3.
+Proof. split; [repeat constructor; unfold I64_MIN, I64_MAX; lia|]. split; vm_compute; reflexivity. Qed.
+(* the code before 42cc00d / 960142a / 7320cb4: a 2^63-1 byte buffer for 3 bytes of data; a loop that is where it
+   started after 1000 rows; start + j overflowing *)
+Theorem C04_xref_stream_pinned_refuted :
+  max_alloc (sxref_stream_pinned 10 [0; 3]%Z [9223372036854775807; 1; 1]%Z c3) = 9223372036854775807
+  /\ outcome (sxref_stream_pinned 1000 [0; 4000000000]%Z [0; 0; 0]%Z c3) = SFuel
+  /\ outcome (sxref_stream_pinned 10 [9223372036854775806; 3]%Z [1; 1; 1]%Z
+               [x01; x00; x00; x01; x00; x00; x01; x00; x00]) = SPanic ROverflow.
+Proof. exact sxref_stream_pinned_refuted. Qed.
+(* Reader::search_substring recurses once per occurrence of the pattern (get_xref_start scans the last 512 + 25 bytes only) *)
+Theorem C04_search_substring_depth_example :
+  let buf := EOF5 ++ [x0a] ++ EOF5 ++ [x0a] ++ EOF5 in
+  outcome (ssearch 10 100 buf EOF5 0) = SOk (Some 12) /\ max_depth (ssearch 10 100 buf EOF5 0) = 3.
+Proof. exact ssearch_depth_example. Qed.
+
+Print Assumptions C04_content_no_panic.
+Print Assumptions C04_direct_object_no_panic.
+Print Assumptions C04_inline_image_safe.
+Print Assumptions C04_inline_image_pinned_refuted.
+Print Assumptions C04_parser_depth_decreases.
+Print Assumptions C04_parser_depth0_no_recursion.
+Print Assumptions C04_xref_stream_safe.
+Print Assumptions C04_example_xref_stream.
+Print Assumptions C04_xref_stream_pinned_refuted.
+Print Assumptions C04_search_substring_depth_example.
 Print Assumptions C04_a85_no_panic.
 Print Assumptions C04_a85_terminates.
 Print Assumptions C04_a85_alloc.
